@@ -204,7 +204,8 @@ def po_buy(S):
     usdg = floor_(after_fee * unit * price / 10 ** 30)
     aum_usdg = floor_(d["aum"] / 10 ** 12)
     minted = exact(floor_(usdg * d["glp"] / aum_usdg)) / 10 ** 18
-    S.check("minted==floor(floor(after-fee-amount*price)*supply/aum-in-usdg)", S.eq(got, minted))
+    # a cut: proved here as its own obligation, then a hypothesis for the inequality clauses below (they follow from the floor alone)
+    S.lemma("minted==floor(floor(after-fee-amount*price)*supply/aum-in-usdg)", S.eq(got, minted))
     S.check("holding+=minted", S.eq(m.glp_amount, held0 + got))
     S.check("wallet-=amount", S.eq(w.broker._assets[w.op].balance, wal0 - amount) or (w.broker._assets[w.op].balance == 0 and abs(wal0 - amount) <= wal0 * Decimal("0.0000100001")))
     S.check_all("contract:", buy_post(S, amount, unit, price, d["glp"], aum_usdg, usdg, got))
